@@ -40,7 +40,12 @@ func stateAnnotation(s *Scanner, c byte) *jerr.JApiError {
 func stateMultilineAnnotationTextStart(s *Scanner, c byte) *jerr.JApiError {
 	s.foundAt(s.curIndex, AnnotationBegin)
 	s.step = stateMultilineAnnotation
-	return stateMultilineAnnotation(s, c)
+	if c == EOF {
+		return s.japiErrorUnexpectedChar("multiline annotation", "*/")
+	}
+	// The first byte after "/*" cannot close the annotation: in "/*/" the asterisk
+	// belongs to the opening delimiter.
+	return nil
 }
 
 func stateMultilineAnnotation(s *Scanner, c byte) *jerr.JApiError {
